@@ -5,14 +5,14 @@ HERE = os.path.dirname(os.path.dirname(os.path.abspath(__file__)))
 
 ENGINE_A = 'SimRT (vf/simrt.py): real code on real CPython threads, baton scheduler with sys.monitoring LINE yield points, virtual clock'
 CHECKS = {
- 'C01': ('exploration', 'A', 'sec 4 C01',
-         'online/offline monitor over a totally ordered invocation/caller/life-cycle log: no two invocations of a key in progress on running loops, no invocation after a success, every value is the one successful result; executions sampled by seeded random / PCT / stall-sweep schedules at source-line granularity plus a directed take-over family',
+ 'C01': ('exploration', 'A+B', 'sec 4 C01',
+         'online/offline monitor over a totally ordered invocation/caller/life-cycle log: no two invocations of a key in progress on running loops, no invocation after a success, every value is the one successful result; executions sampled by seeded random / PCT / stall-sweep schedules at source-line granularity, timed delays and garbage collections injected at source lines, a directed take-over family, and free-running real threads (Engine B) with the overlap clause decided online',
          'runtime monitoring: event-log oracle over controlled-schedule executions (SimRT)'),
  'C02': ('exploration', 'A+B+C', 'sec 4 C02',
          'occupancy counter in a harness-owned critical section under line-level controlled schedules (threads x FileLock objects, kernel flock real), plus free-running processes x threads with an O_EXCL marker file as overlap detector',
          'runtime monitoring: occupancy / marker-file overlap detector under controlled schedules and process stress'),
- 'C03': ('exploration', 'A', 'sec 4 C03',
-         'set-algebra oracle (no loss, no phantom, retry keeps arguments, exactly-once for loop-thread submissions) over the log of a harness-owned function and producers; timed programs in virtual time, foreign threads interleaved at source lines, asyncio debug mode as thread-affinity sanitizer',
+ 'C03': ('exploration', 'A+B', 'sec 4 C03',
+         'set-algebra oracle (no loss, no phantom, retry keeps arguments, exactly-once for loop-thread submissions) over the log of a harness-owned function and producers; timed programs in virtual time, foreign threads interleaved at source lines with injected long preemptions, a loop that migrates between threads, asyncio debug mode as thread-affinity sanitizer, plus the same oracles under free-running real threads (Engine B)',
          'runtime monitoring: conservation / exactly-once oracle over recorded histories (SimRT)'),
  'C04': ('exploration', 'A', 'sec 4 C04',
          'per-caller expected outcome derived from the logged yields/raises of the harness-owned batch function (value, Exception, omitted, raise, yielded twice, unknown key, any result order) compared with what each caller received; completion by bounded virtual-time wait',
@@ -20,10 +20,10 @@ CHECKS = {
  'C05': ('exploration', 'A', 'sec 4 C05',
          'termination by the scheduler\'s deadlock / step-bound detector and promptness as a bounded-progress rule in exact virtual time (no caller waits while nothing is computed unless a loop died within the 60 s safety window), with loop.stop() injected at swept yield points',
          'runtime monitoring: deadlock/livelock detector + virtual-time bounded-progress monitor, fault injection at yield points'),
- 'C06': ('exploration', 'A', 'sec 4 C06',
+ 'C06': ('exploration', 'A+B', 'sec 4 C06',
          'classification of every caller outcome against the log (value of a successful invocation / exception of an invocation this caller performed / cancellation it was itself asked for), cache contents after failures, promptness under cancellation',
          'runtime monitoring: outcome-provenance oracle over recorded histories (SimRT)'),
- 'C07': ('exploration', 'A', 'sec 4 C07',
+ 'C07': ('exploration', 'A+B', 'sec 4 C07',
          'barrier oracle at every wait() return, termination of every wait() and of loop shutdown (cancel all tasks) by the deadlock detector, classified by buffer state at shutdown',
          'runtime monitoring: barrier oracle + deadlock detector over timed programs (SimRT)'),
  'C08': ('exploration', 'A', 'sec 4 C08',
@@ -39,10 +39,10 @@ CHECKS = {
          'per-key window oracle: calls inside the pending/retention window are never batched again and receive the original outcome, calls after it are computed afresh and carry the new batch id, no batch carries a key twice',
          'runtime monitoring: retention-window oracle over recorded batch histories (virtual time)'),
  'C12': ('fault_enumeration', 'A', 'sec 4 C12',
-         'executable Lock/RLock-over-one-file reference model compared after every operation (return value, exact elapsed virtual time, is_locked, /proc/self/fd census, final acquirability); operation sequences enumerated to a stated length, every model transition, OSError injected at every open/lock/unlock/close call index',
+         'executable Lock/RLock-over-one-file reference model compared after every operation (return value, exact elapsed virtual time, is_locked, /proc/self/fd census, final acquirability); operation sequences enumerated to a stated length, every model transition, OSError injected at every open/lock/unlock/close call index, plus residue probes after line-level interleaved concurrent use',
          'runtime monitoring: reference-model monitor with exhaustive short sequences and fault-index enumeration'),
  'C13': ('fault_enumeration', 'C', 'sec 4 C13',
-         'child processes SIGKILLed at every source-line event of aiuti/filelock.py for ten usage scenarios; a fresh lock in the parent and in a new process must acquire at the first non-blocking attempt; live contenders must keep excluding each other and keep progressing',
+         'child processes SIGKILLed at every source-line event of aiuti/filelock.py for ten usage scenarios; a fresh lock in the parent and in a new process must acquire at the first non-blocking attempt while the dead holder is still an unreaped zombie; live contenders (one blocking in the kernel, one polling) must keep excluding each other and keep progressing',
          'runtime monitoring: crash-point enumeration with process kill and post-crash probes'),
  'C14': ('exploration', 'D', 'sec 4 C14',
          'dictionary / LRU model of the key space compared call by call with the number and arguments of wrapped-function invocations and with the returned values; logging MutableMapping with scripted evictions',
@@ -50,10 +50,10 @@ CHECKS = {
  'C15': ('exploration', 'A+D', 'sec 4 C15',
          'each decorator option measured through its behavioural effect in virtual time for the class / decorator / decorator-with-options forms, differential comparison of complete event logs between forms, and one decorated batcher driven from several loops successively and concurrently',
          'runtime monitoring: behavioural option probes + differential log comparison (SimRT)'),
- 'C16': ('exploration', 'A', 'sec 4 C16',
+ 'C16': ('exploration', 'A+B', 'sec 4 C16',
          'consumer log compared with the scripted source (sequence by identity, terminal exception identity), ticker task for loop responsiveness in virtual time, helper-thread census at completion; producer/consumer interleaved at source lines',
          'runtime monitoring: sequence/exception/thread-census oracle under controlled schedules'),
- 'C17': ('exploration', 'A', 'sec 4 C17',
+ 'C17': ('exploration', 'A+B', 'sec 4 C17',
          'caller outcome identity, loop identity observed from inside the awaitable, runner counter in the loop (never two threads), loop_in_thread / stop post-conditions read with the baton held, completion of every caller whose awaitable completed',
          'runtime monitoring: identity/affinity/runner-count oracle under controlled schedules'),
  'C18': ('exploration', 'D', 'sec 4 C18',
@@ -96,6 +96,8 @@ def main():
         'engines': [
             {'name': 'A-SimRT', 'path': 'vf/simrt.py', 'kind_free_text': ENGINE_A,
              'serves_properties': ['C01', 'C02', 'C03', 'C04', 'C05', 'C06', 'C07', 'C08', 'C09', 'C10', 'C11', 'C12', 'C15', 'C16', 'C17', 'C20']},
+            {'name': 'B-real-threads', 'path': 'vf/engine_b.py', 'kind_free_text': 'free-running real threads and event loops in real time with LINE-level sleep injection; the same harness code and safety oracles as Engine A, nothing of aiuti replaced (except the scaled 60 s safety constant)',
+             'serves_properties': ['C01', 'C06', 'C03', 'C07', 'C16', 'C17']},
             {'name': 'B/C-processes', 'path': 'vf/props/flock_child.py', 'kind_free_text': 'free-running OS processes and threads with real flock, LINE-level sleep injection, O_EXCL marker overlap detector; SIGKILL at the n-th LINE event (vf/props/crash_child.py)',
              'serves_properties': ['C02', 'C13']},
             {'name': 'D-reference-models', 'path': 'vf/props', 'kind_free_text': 'sequential reference-model monitors with by-construction expectations',
